@@ -427,69 +427,83 @@ class SemLifter:
             return (self.term_of_call(node, where), ok, ("ok", node.k), [(er, ("err", node.k))], ("atom", node))
         return None
 
-    def first_items(self, node, cur, S, entry, where):
-        """Candidate readings of the first item at `node` (state `cur`): (term, ok node, ok state, [(failure node, error form)]).
-        Composite items first (ordered-choice group, optional group), then the plain call."""
-        if self.atom(node, cur, where) is None:
-            return []
-        key = ("items", id(node), cur, S)
+    def composite(self, kind, node, cur, S, entry, where):
+        """The reading of the item at `node` as an optional group / an ordered-choice group, or None.  A request that re-enters
+        the recognition of the same kind at the same point (a group cannot start with itself) gets None."""
+        key = ("comp", kind, id(node), cur, S)
         memo = self.__dict__.setdefault("_rest_memo", {})
         if key in memo:
             return memo[key]
-        out = []
-        memo[key] = [self.atom(node, cur, where)]      # re-entrant requests see the plain reading only
-        if True:
-            if True:
-                # optional group: a run of items whose failures all continue exactly like the run's success, from the run's
-                # start state with the failure recorded
-                for (terms, okn, oks, fails, pobjs) in self.prefixes(node, cur, S, entry, where):
-                    if not fails:
-                        continue
-                    try:
-                        K = self.rest(okn, oks, S, entry, where)
-                        good = all(self.rest(n, ("rec", cur, e), S, entry, where) == K for (n, e) in fails)
-                    except Unliftable:
-                        good = False
-                    if good:
-                        out.append((("opt", canon(("seq", tuple(terms)))), okn, oks, [], ("opt", pobjs)))
-                        break
-                # ordered choice: alternatives tried one after the other, failures recorded, every success continuing alike
+        memo[key] = None          # re-entrancy guard
+        item = None
+        if kind == "opt":
+            # optional group: a run of items whose failures all continue exactly like the run's success, from the run's start
+            # state with the failure recorded (the run may start with a choice group: `[a | b]`)
+            for (terms, okn, oks, fails, pobjs) in self.prefixes(node, cur, S, entry, where, first=("choice",)):
+                if not fails:
+                    continue
                 try:
-                    alts, K, okn, oks, fin = self.alt_rest(node, cur, S, entry, where, cur)
+                    K = self.rest(okn, oks, S, entry, where)
+                    good = all(self.rest(n, ("rec", cur, e), S, entry, where) == K for (n, e) in fails)
                 except Unliftable:
-                    alts = None
-                if alts is not None and len(alts) >= 2 and K is not None:
-                    arms = self.__dict__.setdefault("_alt_objs", {}).get(("alt", id(node), cur, S, cur), [])
-                    out.append((("choice", tuple(alts)), okn, oks, [fin] if fin is not None else [], ("choice", arms)))
-        out.append(self.atom(node, cur, where))
-        memo[key] = out
+                    good = False
+                if good:
+                    item = (("opt", canon(("seq", tuple(terms)))), okn, oks, [], ("opt", pobjs))
+                    break
+        else:
+            # ordered choice: alternatives tried one after the other, failures recorded, every success continuing alike
+            try:
+                alts, K, okn, oks, fin = self.alt_rest(node, cur, S, entry, where, cur)
+            except Unliftable:
+                alts = None
+            if alts is not None and len(alts) >= 2 and K is not None:
+                arms = self.__dict__.setdefault("_alt_objs", {}).get(("alt", id(node), cur, S, cur), [])
+                item = (("choice", tuple(alts)), okn, oks, [fin] if fin is not None else [], ("choice", arms))
+        memo[key] = item
+        return item
+
+    def first_items(self, node, cur, S, entry, where):
+        """Candidate readings of the first item at `node` (state `cur`): (term, ok node, ok state, [(failure node, error form)], structure).
+        Composite items first (optional group, ordered-choice group), then the plain call."""
+        a0 = self.atom(node, cur, where)
+        if a0 is None:
+            return []
+        out = []
+        for kind in ("opt", "choice"):
+            it = self.composite(kind, node, cur, S, entry, where)
+            if it is not None:
+                out.append(it)
+        out.append(a0)
         return out
 
-    def prefixes(self, node, cur, S, entry, where, limit=10):
-        """Growing runs of items from `node`: (terms, ok node, ok state, accumulated failure exits).  Inside a run the first
-        viable reading of each item is taken (composite before plain)."""
-        terms, fails, objs = [], [], []
-        n, c = node, cur
-        for _ in range(limit):
-            item = None
-            if n is not None and n.type == "call" and n.sarg == c:
-                if terms:
-                    # nested groups inside a run: composite readings of the next item
-                    for cand in self.first_items(n, c, S, entry, where):
+    def prefixes(self, node, cur, S, entry, where, limit=10, first=()):
+        """Growing runs of items from `node`: (terms, ok node, ok state, accumulated failure exits, structure).  The first item is
+        read as one of the composite kinds in `first` (if it is one) or as a plain call; inside a run the first viable reading of
+        each further item is taken (composite before plain)."""
+        starts = []
+        for kind in first:
+            it = self.composite(kind, node, cur, S, entry, where)
+            if it is not None:
+                starts.append(it)
+        a0 = self.atom(node, cur, where)
+        if a0 is not None:
+            starts.append(a0)
+        for start_item in starts:
+            terms, fails, objs = [], [], []
+            item = start_item
+            for _ in range(limit):
+                term, okn, oks, fl, obj = item
+                terms = terms + [term]
+                fails = fails + list(fl)
+                objs = objs + [obj]
+                yield (list(terms), okn, oks, list(fails), list(objs))
+                item = None
+                if okn is not None and okn.type == "call" and okn.sarg == oks:
+                    for cand in self.first_items(okn, oks, S, entry, where):
                         item = cand
                         break
-                else:
-                    item = self.atom(n, c, where)
-                    # the first item of a run may itself be a (nested) choice group - but not the group being recognised:
-                    # that recursion is cut by the depth counter in first_items
-            if item is None:
-                return
-            term, okn, oks, fl, obj = item
-            terms = terms + [term]
-            fails = fails + list(fl)
-            objs = objs + [obj]
-            n, c = okn, oks
-            yield (list(terms), okn, oks, list(fails), list(objs))
+                if item is None:
+                    break
 
     def alt_rest(self, node, st, S, entry, where, start):
         """(alternatives, K, ok node, ok state, final failure exit): from `node`, reached with state `st`, alternatives are tried
@@ -518,7 +532,7 @@ class SemLifter:
     def _alt_rest(self, node, st, S, entry, where, start):
         last_ex = None
         any_prefix = False
-        for (terms, okn, oks, fails, pobjs) in self.prefixes(node, st, S, entry, where):
+        for (terms, okn, oks, fails, pobjs) in self.prefixes(node, st, S, entry, where, first=("opt",)):
             any_prefix = True
             try:
                 K = self.rest(okn, oks, S, entry, where)
